@@ -1,8 +1,8 @@
 (* Type system and executable-document syntax of the execution model.  Definitions only.
 
    Fragment: object, interface, union and enum types, the five specified scalars, list and
-   non-null wrappers; arguments and variables of leaf/list/non-null input types with defaults
-   (no input objects, no custom scalars); fields with aliases, arguments, directives
+   non-null wrappers; arguments and variables of leaf/list/non-null/input-object (incl. OneOf)
+   types with defaults (no custom scalars); fields with aliases, arguments, directives
    (only @skip/@include are interpreted), fragment spreads and inline fragments. *)
 From GV Require Import Base.Prelude Exec.Value.
 
@@ -18,7 +18,8 @@ Inductive type_def : Type :=
 | TEnum (vals : list str)
 | TObject (fields : list field_def) (ifaces : list str)   (* ifaces: all implemented, transitively *)
 | TInterface (fields : list field_def)
-| TUnion (members : list str).
+| TUnion (members : list str)
+| TInput (fields : list arg_def) (one_of : bool).        (* input object (OneOf if [one_of]) *)
 
 Record schema := mkSchema {
   s_types : list (str * type_def);       (* named types other than the specified scalars *)
